@@ -7,6 +7,7 @@ spec/Trace_UdsLayoutReq.tla / Trace_UdsLayoutResp.tla.
 
 from __future__ import annotations
 
+import copy
 import json
 import random
 import shutil
@@ -111,18 +112,48 @@ def response_classes(layout: dict[str, Any]) -> dict[str, type]:
     return concrete_classes(S.UDSResponse, set(layout), resp_kind)
 
 
-def exec_request(cls: type, kind: str, f: dict[str, Any]) -> tuple[dict[str, Any], dict[str, Any]]:
-    """Construct, serialise, parse back (class and dynamic).  Returns (trace record, notes)."""
+def assigned_object(cls: type, kind: str, fa: dict[str, Any], fb: dict[str, Any]) -> Any | None:
+    """A request object constructed with the parameters `fa` whose public fields are then assigned the values of
+    the parameters `fb` (the way a dump loop re-uses one request and advances its address).  None if either
+    parameter record is not constructible, if the class does not allow assignment, or if the user-visible fields
+    do not all end up with fb's values (then nothing is claimed about the object)."""
+    try:
+        a = cls(**ctor_kwargs(cls, kind, fa))
+        b = cls(**ctor_kwargs(cls, kind, fb))
+    except Exception:  # noqa: BLE001
+        return None
+    names = [n for n in vars(b) if not n.startswith("_")]
+    for klass in type(b).__mro__:
+        for n, d in vars(klass).items():
+            if isinstance(d, property) and d.fset is not None and not n.startswith("_") and n not in names:
+                names.append(n)
+    try:
+        for n in names:
+            setattr(a, n, copy.deepcopy(getattr(b, n)))
+        if expose_request(a) != expose_request(b):
+            return None
+    except Machinery:
+        raise
+    except Exception:  # noqa: BLE001
+        return None
+    return a
+
+
+def exec_request(cls: type, kind: str, f: dict[str, Any], obj: Any = None) -> tuple[dict[str, Any], dict[str, Any]]:
+    """Construct (or take the given object), serialise, parse back (class and dynamic).  Returns (trace record, notes)."""
     rec: dict[str, Any] = {"kind": kind, "f": f, "built": {"ok": False}, "pdu": {"ok": False, "b": []},
                            "fp": NOFP, "dyn": NODYN, "wire": NOWIRE}
     notes: dict[str, Any] = {}
-    kw = ctor_kwargs(cls, kind, f)
-    try:
-        obj = cls(**kw)
+    if obj is not None:
         rec["built"] = {"ok": True}
-    except Exception as e:  # noqa: BLE001
-        notes["ctor"] = f"{type(e).__name__}: {e}"[:120]
-        return rec, notes
+    else:
+        kw = ctor_kwargs(cls, kind, f)
+        try:
+            obj = cls(**kw)
+            rec["built"] = {"ok": True}
+        except Exception as e:  # noqa: BLE001
+            notes["ctor"] = f"{type(e).__name__}: {e}"[:120]
+            return rec, notes
     try:
         pdu = obj.pdu
         if not isinstance(pdu, (bytes, bytearray)):
@@ -203,6 +234,34 @@ def exec_wire(cases: list[tuple[str, dict[str, Any]]]) -> list[dict[str, Any]]:
 
     try:
         vloop.run(go(), horizon=10.0 * (len(cases) + 10))
+    finally:
+        env.dispose()
+    return out
+
+
+def exec_wire_objects(objs: list[Any]) -> list[dict[str, Any]]:
+    """The bytes UDSClient.request(obj) hands to transport.write for each given request object."""
+    out: list[dict[str, Any]] = []
+    env = _WireEnv()
+
+    async def go() -> None:
+        tr = ScriptedTransport(env)
+        cl = UDSClient(tr, timeout=1.0, max_retry=0)
+        for o in objs:
+            env.written.clear()
+            try:
+                await cl.request(o)
+            except Machinery:
+                raise
+            except Exception:  # noqa: BLE001
+                pass
+            if len(env.written) == 1:
+                out.append({"has": True, "ok": True, "b": list(env.written[0])})
+            else:
+                out.append({"has": True, "ok": False, "b": []})
+
+    try:
+        vloop.run(go(), horizon=10.0 * (len(objs) + 10))
     finally:
         env.dispose()
     return out
